@@ -454,7 +454,7 @@ pub fn property(tier: Tier) -> Property {
         panic_is_violation: true,
         render: |c: &SeqPrefix| format!("prefix {:?} then every continuation of up to {} more insert/remove operations over 4 keys x 4 values", c.prefix, c.depth),
         rule: "exhaustive: every insert/remove sequence of length <= 5 over 4 keys x 4 values (400 prefixes x DFS depth 3 = 3.37M states), all observers compared with a BTreeMap after every step; every enumerated prefix counts as non-trivial",
-        case_timeout_s: 300,
+        case_timeout_s: 60,
         exhaustive: true,
     }));
     stages.push(Box::new(Stage {
@@ -464,7 +464,7 @@ pub fn property(tier: Tier) -> Property {
         panic_is_violation: true,
         render: |c: &MapIdx| format!("map #{} of the 625 partial maps over 4 slots, against all 625 maps", c.a),
         rule: "exhaustive: all 625 maps over 4 slots (unary laws) and all 390625 ordered pairs (Eq/Ord/Hash consistency, compose, compose_partial, compose_fresh, union, try_union), associativity and order transitivity on two derived third maps per pair",
-        case_timeout_s: 300,
+        case_timeout_s: 60,
         exhaustive: true,
     }));
     stages.push(Box::new(Stage {
